@@ -43,7 +43,9 @@ fn main() {
             ctx::quiet_panics();
             props::tok::set_tmp(dir);
             let mut c = Ctx::new(dir, seed, thorough, scale, shard, nshards, exec_for(prop));
-            match prop {
+            // a panic of the implementation while the GENERATOR is driving it (outside a recorded request) must not be
+            // lost: it is recorded and reported by the orchestrator (exit code 4)
+            let res = std::panic::catch_unwind(std::panic::AssertUnwindSafe(|| match prop {
                 "C10" => props::text::run_c10(&mut c),
                 "C11" => props::text::run_c11(&mut c),
                 "C14" => props::text::run_c14(&mut c),
@@ -65,6 +67,13 @@ fn main() {
                 "C03" => props::tok::run_bpe(&mut c, true),
                 "C04" => props::tok::run_c04(&mut c),
                 _ => unreachable!(),
+            }));
+            if let Err(p) = res {
+                let msg = p.downcast_ref::<String>().cloned().or_else(|| p.downcast_ref::<&str>().map(|s| s.to_string())).unwrap_or_default();
+                let msg: String = msg.chars().take(300).map(|c| if c == '\n' { ' ' } else { c }).collect();
+                std::fs::write(format!("{dir}/genpanic.txt"), format!("{msg}\n")).ok();
+                c.finish(dir);
+                std::process::exit(4);
             }
             c.finish(dir);
         }
